@@ -123,6 +123,48 @@ fn mint(g: &Grants, exp: u64, secret: &str, alg: Algorithm) -> String {
     jsonwebtoken::encode(&Header::new(alg), &claims, &EncodingKey::from_secret(secret.as_bytes())).expect("MACHINERY: mint token")
 }
 
+/// Part 3 (wall clock): a token that is presented successfully while it is valid and again, on a new
+/// session, after it has expired must be refused the second time (the library's leeway of 60 s is
+/// part of "valid"). Only the acceptance after the expiry is a violation; if the machine is so slow
+/// that the first presentation already comes too late the case is inconclusive.
+fn expiry_case(rep: &mut Report) -> (u64, String) {
+    let now = || std::time::SystemTime::now().duration_since(std::time::UNIX_EPOCH).map(|d| d.as_secs()).unwrap_or(0);
+    let g = Grants { read: vec!["#"], write: vec!["#"], delete: vec!["#"] };
+    // valid for 4 more seconds (leeway 60 s)
+    let exp = now() - 56;
+    let token = mint(&g, exp, SECRET, Algorithm::HS256);
+    let present = |token: String| -> bool {
+        block_on(async {
+            let mut cfg = base_config();
+            cfg.auth_token_key = Some(SECRET.to_owned());
+            let wb = Worterbuch::with_config(cfg.clone());
+            let mut world = World::new(cfg, wb, &[0]).await;
+            world.drain(0);
+            let line = serde_json::to_string(&CM::AuthorizationRequest(AuthorizationRequest { auth_token: token })).expect("json");
+            world.line(0, &line).await;
+            let ok = world.drain(0).iter().any(|m| matches!(m, SM::Authorized(_)));
+            world.close(0).await;
+            ok
+        })
+    };
+    let first = present(token.clone());
+    if !first {
+        return (1, "inconclusive: the first presentation came after the expiry".into());
+    }
+    while now() <= exp + 61 {
+        std::thread::sleep(std::time::Duration::from_millis(200));
+    }
+    let again = present(token.clone());
+    let fresh = present(mint(&Grants { read: vec!["a"], write: vec![], delete: vec![] }, exp, SECRET, Algorithm::HS256));
+    if again || fresh {
+        rep.violation(
+            format!("a token that expired at {exp}+60 s was accepted afterwards (seen before: {again}, never seen before: {fresh})"),
+            json!({"token_exp": exp, "accepted_again": again, "accepted_fresh": fresh}),
+        );
+    }
+    (3, "decided".into())
+}
+
 pub struct AuthScenario {
     pub name: String,
     pub token: Token,
@@ -512,12 +554,15 @@ pub fn run(tier: &str, known: &mc::Known, lim: impl Fn(usize, usize, bool, u64) 
         }
         crate::runner::absorb(&name, &sc, &stats, &mut ev, &mut rep, "graph");
     }
+    let (n3, outcome) = expiry_case(&mut rep);
+    ev.add("evaluations", n3);
+    ev.set("token_expiry_case", json!(outcome));
     ev.add("evaluations", pairs);
     ev.set("distinct_nontrivial", json!(classes.len()));
     ev.set("exhaustive", json!(true));
     ev.set("rule", json!("part 1: every (grant, requested pattern) pair over {a,ab,?,#} up to depth 4 (quick) / 5 (thorough); where pattern_matches claims containment, every key the real server returns for the request (measured on a store holding every key over {a,ab} one level deeper) must be covered by the grant under the documented relation. part 2: for each of 10 tokens (no token, 5 grant sets, expired, forged, unsupported algorithm, garbage) every sequence of requests (all request kinds over keys/patterns a, a/b, a/b/c, ab, a/?, a/#, ?/b, #, ?) up to the completed depth on a server that requires authorization; distinct_nontrivial counts distinct (token, request kind, served/refused/closed) classes"));
     ev.assume("only soundness is asserted: served => every key returned, changed or removed (answer, store difference, unrestricted observer) is covered by a grant of the right privilege; not that every containable request is accepted");
-    ev.assume("token expiry uses the wall clock: expiry times far in the past (2001) and far in the future (2100)");
+    ev.assume("token expiry uses the wall clock: expiry times far in the past (2001) and far in the future (2100) in part 2; part 3 presents one token 4 s before and again after its expiry (real time, about 5 s)");
     ev.assume("children returned by ls are counted as the keys parent/child");
     rep.finish(&mut ev)
 }
